@@ -39,11 +39,12 @@ GenView == <<hist, nops, fin>>
 Live(S) == IF fin THEN {} ELSE S
 SimAdd        == \E a \in Live(EvArg(Ts)) : Add(a.ts, a.kind)
 SimAddMany    == \E b \in Live(Batches) : AddMany(b)
+SimAddManyFail == \E b \in Live(Batches) : \E k \in 0..(Len(b) - 1) : AddManyFail(b, k)
 SimGetCurrent == \E t \in Live(Probes) : GetCurrentAt(t)
 SimQuery      == \E q \in Live({1, 2, 3}) : CASE q = 1 -> QLen [] q = 2 -> QEmpty [] q = 3 -> QLastTs
 SimNext ==
     \/ SimAdd \/ (SimAdd /\ nops >= 0)
-    \/ SimAddMany
+    \/ SimAddMany \/ SimAddManyFail
     \/ DoGetEvent \/ (DoGetEvent /\ nops >= 0)
     \/ SimGetCurrent \/ (SimGetCurrent /\ nops >= 0)
     \/ SimQuery
